@@ -63,7 +63,7 @@ def trade_costs(t, trades):
     for full, owner, ticker, q, price, m in trades:
         p = mid(t, ticker)
         if price is None:
-            half = abs(q) * 0.5 * (t.spread or 0.0) * m
+            half = abs(q) * 0.5 * (t.spread_now() or 0.0) * m
             outlay = q * p * m + half
             fe = fee(q, p * m) if fee else 0.0
             friction = half
